@@ -25,7 +25,10 @@ import (
 
 // c18Input is one pair of logical keys.
 type c18Input struct {
-	Kind string   `json:"kind"` // "ids" | "addrs" | "keeper"
+	Kind string   `json:"kind"` // "ids" | "addrs" | "keeper" | "interference"
+	// interference: A / B = height increments of the records of the first / second registration, P = [limit of the
+	// first, limit of the second, interleaving pattern bits]
+	P []uint64 `json:"p,omitempty"`
 	A    []uint64 `json:"a,omitempty"` // (id, height) of the first key
 	B    []uint64 `json:"b,omitempty"`
 	X    []string `json:"x,omitempty"` // hex addresses (receiver, sender) of the first key
@@ -166,6 +169,82 @@ func checkC18(in c18Input) string {
 		return checkAddrs([][]byte{unhex(in.X[0]), unhex(in.X[1])}, [][]byte{unhex(in.Y[0]), unhex(in.Y[1])})
 	case "keeper":
 		return checkKeeper(in)
+	case "interference":
+		return checkInterference(in)
+	}
+	return ""
+}
+
+// checkInterference: non-interference between registrations under the keepers' own operations. Two WRKChains and two
+// BEACONs are registered (the second with the higher identifier); the same records are written for the first one in two
+// branches of the state that differ only in whether the second one is given records (and a different limit) in
+// between. Everything that can be read for the first one must be identical in both branches.
+func checkInterference(in c18Input) (msg string) {
+	c := keeperChain
+	if c == nil {
+		var err error
+		c, err = lab.New(defaultCfg(), lab.NodeOpts{DB: "mem"})
+		if err != nil {
+			return "cannot build chain: " + err.Error()
+		}
+		defer c.Close()
+		c.BeginBlock(time.Second)
+	}
+	defer func() {
+		if r := recover(); r != nil {
+			msg = fmt.Sprintf("keeper panicked: %v\n%s", r, shortStack())
+		}
+	}()
+	if len(in.P) < 3 {
+		return ""
+	}
+	base, _ := c.Ctx().CacheContext()
+	app := c.App
+	owner := c.Accts[1].Addr
+	var wid, bid [2]uint64
+	for i := 0; i < 2; i++ {
+		var err error
+		if wid[i], err = app.WrkchainKeeper.RegisterNewWrkChain(base, fmt.Sprintf("w%d", i), "n", "g", "t", owner); err != nil {
+			return "RegisterNewWrkChain failed: " + err.Error()
+		}
+		if bid[i], err = app.BeaconKeeper.RegisterNewBeacon(base, beacontypes.Beacon{Moniker: fmt.Sprintf("b%d", i), Name: "n", Owner: owner.String()}); err != nil {
+			return "RegisterNewBeacon failed: " + err.Error()
+		}
+		lim := in.P[i]%4 + 1
+		_ = app.WrkchainKeeper.SetWrkChainStorageLimit(base, wid[i], lim)
+		_ = app.BeaconKeeper.SetBeaconStorageLimit(base, bid[i], lim)
+	}
+	type view struct{ reg, blocks, limit string }
+	run := func(withSecond bool) (wv, bv view) {
+		ctx, _ := base.CacheContext()
+		ha, hb := uint64(0), uint64(0)
+		j := 0
+		for i, d := range in.A {
+			if withSecond && in.P[2]>>(uint(i)%60)&1 == 1 && j < len(in.B) {
+				hb += in.B[j]%5 + 1
+				j++
+				_, _ = app.WrkchainKeeper.RecordNewWrkchainHashes(ctx, wid[1], hb, "hb", "p", "1", "2", "3")
+				_, _, _ = app.BeaconKeeper.RecordNewBeaconTimestamp(ctx, bid[1], "hb", 7)
+			}
+			ha += d%5 + 1
+			_, _ = app.WrkchainKeeper.RecordNewWrkchainHashes(ctx, wid[0], ha, fmt.Sprintf("ha%d", i), "", "1", "", "3")
+			_, _, _ = app.BeaconKeeper.RecordNewBeaconTimestamp(ctx, bid[0], fmt.Sprintf("ha%d", i), 9)
+		}
+		w, _ := app.WrkchainKeeper.GetWrkChain(ctx, wid[0])
+		wl, _ := app.WrkchainKeeper.GetWrkChainStorageLimit(ctx, wid[0])
+		wv = view{w.String(), fmt.Sprint(app.WrkchainKeeper.GetAllWrkChainBlockHashes(ctx, wid[0])), wl.String()}
+		b, _ := app.BeaconKeeper.GetBeacon(ctx, bid[0])
+		bl, _ := app.BeaconKeeper.GetBeaconStorageLimit(ctx, bid[0])
+		bv = view{b.String(), fmt.Sprint(app.BeaconKeeper.GetAllBeaconTimestamps(ctx, bid[0])), bl.String()}
+		return
+	}
+	w1, b1 := run(false)
+	w2, b2 := run(true)
+	if w1 != w2 {
+		return fmt.Sprintf("what is read for WRKChain %d depends on whether WRKChain %d was given records: alone %+v, next to it %+v", wid[0], wid[1], w1, w2)
+	}
+	if b1 != b2 {
+		return fmt.Sprintf("what is read for BEACON %d depends on whether BEACON %d was given records: alone %+v, next to it %+v", bid[0], bid[1], b1, b2)
 	}
 	return ""
 }
@@ -260,6 +339,11 @@ func TestC18(t *testing.T) {
 			}
 			in.X = []string{hex.EncodeToString(r1), hex.EncodeToString(s1)}
 			in.Y = []string{hex.EncodeToString(r2), hex.EncodeToString(s2)}
+		case k == 8 && n%2 == 0:
+			in.Kind = "interference"
+			in.A = rapid.SliceOfN(rapid.Uint64Range(0, 9), 1, 8).Draw(rt, "recsA")
+			in.B = rapid.SliceOfN(rapid.Uint64Range(0, 9), 1, 8).Draw(rt, "recsB")
+			in.P = []uint64{rapid.Uint64Range(0, 3).Draw(rt, "limA"), rapid.Uint64Range(0, 3).Draw(rt, "limB"), rapid.Uint64().Draw(rt, "pattern")}
 		default:
 			in.Kind = "keeper"
 			in.A = []uint64{genID(rt, "a0"), genID(rt, "a1")}
